@@ -257,12 +257,12 @@ def run_bounded(chk):
     fails = []
     n_eval = 0
     named = corpus.named_convex()
-    shapes = [(n, "ConvexPolyhedron", named[n], None) for n in (("cube", "chiral5", "prism5", "pyramid") if chk.tier == "quick" else list(named)[:10])]
-    for vname in ("U7", "frame8") if chk.tier == "quick" else ("U7", "C5", "frame8", "stairs", "T3d"):
+    shapes = [(n, "ConvexPolyhedron", named[n], None) for n in (("cube", "chiral5", "prism5", "pyramid") if chk.bounded_tier == "quick" else list(named)[:10])]
+    for vname in ("U7", "frame8") if chk.bounded_tier == "quick" else ("U7", "C5", "frame8", "stairs", "T3d"):
         verts, faces = B2.voxel_mesh(B2.voxel_solids()[vname])
         shapes.append((vname, "Polyhedron", verts, faces))
-    scales = (1e-3, 1e-2, 1e3) if chk.tier == "quick" else (1e-3, 1e-2, 1.0, 1e2, 1e3)
-    places = corpus.placements()[2:] if chk.tier == "quick" else corpus.placements()
+    scales = (1e-3, 1e-2, 1e3) if chk.bounded_tier == "quick" else (1e-3, 1e-2, 1.0, 1e2, 1e3)
+    places = corpus.placements()[2:] if chk.bounded_tier == "quick" else corpus.placements()
     for name, klass, pts, faces in shapes:
         P = np.asarray(pts, float)
         size = float(np.ptp(P, axis=0).max())
@@ -310,7 +310,7 @@ def run_bounded(chk):
                     fails.append((f"{klass}:{name}/s={s:g}/{pname}", {"vertices": Pn.tolist(), "faces": None if faces is None else fn,
                                                                      "scale": s, "differences": [str(b)[:300] for b in bad[:4]]}))
     # polygons
-    for pname, pts in list(corpus.polygons_2d().items())[:6 if chk.tier == "quick" else 11]:
+    for pname, pts in list(corpus.polygons_2d().items())[:6 if chk.bounded_tier == "quick" else 11]:
         p3 = np.array([[float(x), float(y), 0.0] for x, y in pts])
         size = float(np.ptp(p3, axis=0).max())
         base = cox.shapes.Polygon(p3)
